@@ -83,6 +83,8 @@ def show(av, d=0):
     if av == ANY:
         return "?"
     t = av[0]
+    if t == "S" and av[1] == BYTE:
+        return "Byte" + (("(" + av[3] + ")") if av[3] else "")
     if t == "S":
         s = av[1]
         if av[2] or av[3]:
@@ -276,6 +278,8 @@ def join(a, b, conflicts=None, depth=0):
             k = "Any"
         side, c1 = join_side(a[2], b[2])
         frame, c2 = join_frame(a[3], b[3])
+        if k == BYTE:
+            frame, c2 = (a[3] if a[3] == b[3] else (a[3] or b[3] if None in (a[3], b[3]) else None)), False
         if conflicts is not None and ka == kb and (k == POS or (k == LEN and depth >= 1)):
             if c1:
                 conflicts.append(("side", a, b))
@@ -348,7 +352,20 @@ def add(a, b, op, conflicts=None):
     if BYTE in (ka, kb):
         other = kb if ka == BYTE else ka
         if other in (BYTE, CONST, ZERO):
-            return S(BYTE)
+            ma = a[3] if ka == BYTE else ("pos" if ka == ZERO else None)
+            mb = b[3] if kb == BYTE else ("pos" if kb == ZERO and op == "+" else None)
+            if ka == BYTE and kb == BYTE:
+                if op == "+":
+                    mk = "pos" if "pos" in (ma, mb) else ("len" if ma == mb == "len" else None)
+                else:
+                    mk = "len" if (ma == mb == "pos" or ma == mb == "len") else ("pos" if ma == "pos" and mb == "len" else None)
+            else:
+                mk = ma if ka == BYTE else mb
+                if ka != BYTE and kb == BYTE and ka == ZERO and op == "+":
+                    mk = "pos" if mb in ("len", "pos") else None
+                if ka == BYTE and kb == CONST:
+                    mk = ma
+            return S(BYTE, None, mk)
         if conflicts is not None:
             conflicts.append(("unit", a, b))
         return ANY
@@ -421,6 +438,7 @@ class FnEval:
         self.hook_frame = F0
         self.adjust = {}
         self.adjust_line = {}
+        self.hints = {}          # local hir id -> set of sides of the positions it is added to
 
     # -------------------------------------------------------------- helpers
     def conflict_check(self, conflicts, where, line, rule="A5", sided=None):
@@ -444,6 +462,7 @@ class FnEval:
         if ty:
             self.tys[hid] = ty
         av = self.apply_name(name, av, line, ty or self.tys.get(hid))
+        av = self.apply_byte_name(name, av)
         conflicts = []
         old = self.env.get(hid)
         new = join(old, av, conflicts)
@@ -468,6 +487,15 @@ class FnEval:
             return av
         if is_s(av) and av[2] is None and av[1] in (POS, LEN):
             return ("S", av[1], ns, av[3], av[4])
+        return av
+
+    def apply_byte_name(self, name, av):
+        """Byte values: the binding's name says whether it is an offset or a length."""
+        if is_s(av) and av[1] == BYTE and av[3] is None and name:
+            if re.search(r"(_len|^len)$", name):
+                return ("S", BYTE, None, "len", av[4])
+            if re.search(r"(_idx|_index|_pos|_start|_end|^start|^end|^offset|_offset|^idx)$", name):
+                return ("S", BYTE, None, "pos", av[4])
         return av
 
     def seed_for(self, name, ty, frame=F0):
@@ -868,6 +896,80 @@ class FnEval:
                                  "are no longer stripped in lockstep" % (e.get("src", ""), names["O"], names["N"], names["O"], fld,
                                                                          a or "nothing", names["N"], fld, b or "nothing"), e["line"])
 
+    def check_mirror(self, g, e, arg_exprs):
+        """A10: when a call receives a range *literal* for the old side and one for the new side, the two
+        expressions are mirror images (identical up to old<->new and to side-specific offsets)."""
+        if not self.report:
+            return
+        params = g.hir["params"]
+        lits = {}
+        for i, p in enumerate(params):
+            nm = p["pat"].get("name") or ""
+            if i >= len(arg_exprs) or not p["ty"].startswith("std::ops::Range<usize>") or not name_side(nm):
+                continue
+            x = arg_exprs[i]
+            while isinstance(x, dict) and x.get("k") in ("droptemps", "addrof", "cast"):
+                x = x["x"]
+            if isinstance(x, dict) and x.get("k") == "struct" and x.get("adt") == "std::ops::Range":
+                key = re.sub(r"(?:^|_)(old|new)(?=_|$)", "", nm)
+                lits.setdefault(key, {})[name_side(nm)] = x
+        for key, pair in lits.items():
+            if set(pair) != {"O", "N"}:
+                continue
+            a = self.mirror_norm(pair["O"])
+            b = self.mirror_norm(pair["N"])
+            ok = a == b
+            self.ctx.ob("A10", ok, "%s: `%s`: old range `%s` mirrors new range `%s`" % (
+                self.fn.path, e.get("src", "")[:50], pair["O"].get("src", ""), pair["N"].get("src", "")))
+            if not ok:
+                self.ctx.finding("A10", self.fn, "mirror:%s" % _norm_src(e.get("src", "")),
+                                 "`%s` passes the old range `%s` and the new range `%s`, which are not mirror images of each "
+                                 "other (normalised: %s vs %s): one side is stripped/advanced differently" % (
+                                     e.get("src", ""), pair["O"].get("src", ""), pair["N"].get("src", ""), a, b), e["line"])
+
+    def mirror_norm(self, node):
+        def ren(name):
+            return re.sub(r"(?i)(old|new)", "X", name)
+
+        def go(n):
+            while isinstance(n, dict) and n.get("k") in ("droptemps", "addrof", "cast") or (
+                    isinstance(n, dict) and n.get("k") == "block" and not n["b"]["stmts"] and n["b"].get("expr")):
+                n = n["b"]["expr"] if n.get("k") == "block" else n["x"]
+            if not isinstance(n, dict):
+                return "?"
+            k = n.get("k")
+            if k == "path":
+                rr = n.get("res", {})
+                if rr.get("k") == "local":
+                    nm = rr["name"]
+                    if name_side(nm):
+                        return ren(nm)
+                    av = self.env.get(rr["id"])
+                    h = self.hints.get(rr["id"])
+                    if (is_s(av) and av[2] in ("O", "N")) or (h and len(h) == 1):
+                        return "<sided>"
+                    return nm
+                return rr.get("path", "?").rsplit("::", 1)[-1]
+            if k == "lit":
+                return n.get("src", "?")
+            if k == "field":
+                return go(n["base"]) + "." + ren(n["name"])
+            if k == "binary":
+                return "(%s%s%s)" % (go(n["l"]), n["op"], go(n["r"]))
+            if k == "mcall":
+                return "%s.%s(%s)" % (go(n["recv"]), ren(n["name"]), ",".join(go(a) for a in n["args"]))
+            if k == "call":
+                return "%s(%s)" % (go(n["f"]), ",".join(go(a) for a in n["args"]))
+            if k == "index":
+                return "%s[%s]" % (go(n["base"]), go(n["idx"]))
+            if k == "struct" and n.get("adt") == "std::ops::Range":
+                f = {x["name"]: x["e"] for x in n["fields"]}
+                return "%s..%s" % (go(f.get("start")), go(f.get("end")))
+            if k == "unary":
+                return "%s(%s)" % (n["op"], go(n["x"]))
+            return k or "?"
+        return go(node)
+
     def ev_assignop(self, e):
         l = self.ev(e["l"])
         r = self.ev(e["r"])
@@ -966,6 +1068,10 @@ class FnEval:
             return
         self.expect(v, want, "A4", "field:%s.%s" % (adt.rsplit("::", 1)[-1], name),
                     "field `%s.%s`" % (adt.rsplit("::", 1)[-1], name), line)
+        if self.report and is_s(want) and want[1] == LEN and want[2] == "B" and is_s(v) and v[1] == LEN and v[2] in ("O", "N"):
+            self.ctx.finding("A4", self.fn, "one-sided-len:%s.%s" % (adt.rsplit("::", 1)[-1], name),
+                             "field `%s.%s` is the length of a segment present on both sides but receives the length of the "
+                             "%s side only (%s)" % (adt.rsplit("::", 1)[-1], name, _sn(v[2]), show(v)), line)
 
     # -------------------------------------------------------------- sinks
     def expect(self, got, want, rule, detail, what, line, allow_zero=False):
@@ -1056,10 +1162,37 @@ class FnEval:
         return True, "", False
 
     # -------------------------------------------------------------- arithmetic / comparison
+    def hint_offset(self, pos_av, other_expr):
+        """`Pos(s) +/- v`: the local v is an offset on side s."""
+        if not (is_s(pos_av) and pos_av[1] == POS and pos_av[2] in ("O", "N")):
+            return
+        x = other_expr
+        while isinstance(x, dict) and x.get("k") in ("droptemps", "cast", "addrof"):
+            x = x["x"]
+        if isinstance(x, dict) and x.get("k") == "path" and x.get("res", {}).get("k") == "local":
+            self.hints.setdefault(x["res"]["id"], set()).add(pos_av[2])
+
+    def expr_side(self, av, expr):
+        """Side of a scalar: from its value, else from the offset hints of the local it names."""
+        if is_s(av) and av[2] in ("O", "N") and av[1] in (POS, LEN):
+            return av[2]
+        x = expr
+        while isinstance(x, dict) and x.get("k") in ("droptemps", "cast", "addrof"):
+            x = x["x"]
+        if isinstance(x, dict) and x.get("k") == "path" and x.get("res", {}).get("k") == "local":
+            h = self.hints.get(x["res"]["id"])
+            if h and len(h) == 1 and (av == ANY or (is_s(av) and av[1] in (LEN, ZERO, CONST) and av[2] in (None,))):
+                return list(h)[0]
+        return None
+
     def ev_binary(self, e):
         op = e["op"]
         l = self.ev(e["l"])
         r = self.ev(e["r"])
+        if op in ("+", "-"):
+            self.hint_offset(l, e["r"])
+            if op == "+":
+                self.hint_offset(r, e["l"])
         if op in ("&&", "||"):
             return S(BOOL)
         if op in ("==", "!=", "<", "<=", ">", ">="):
@@ -1096,6 +1229,16 @@ class FnEval:
         return ANY
 
     def compare_check(self, l, r, e):
+        if self.report and e.get("op") in ("<", "<=", ">", ">="):
+            sl, sr = self.expr_side(l, e["l"]), self.expr_side(r, e["r"])
+            kinds_ok = all((v == ANY) or (is_s(v) and v[1] in (LEN, ZERO, CONST)) for v in (l, r))
+            if kinds_ok and sl and sr:
+                self.ctx.ob("A7", sl == sr, "%s: `%s` compares a %s-side with a %s-side quantity" % (
+                    self.fn.path, e.get("src", ""), _sn(sl), _sn(sr)))
+                if sl != sr:
+                    self.ctx.finding("A7", self.fn, "cross-side-bound:%s" % _norm_src(e.get("src", "")),
+                                     "`%s` bounds a %s-side offset/length by a %s-side length (%s vs %s)" % (
+                                         e.get("src", ""), _sn(sl), _sn(sr), show(l), show(r)), e["line"])
         if not self.report or not (is_s(l) and is_s(r)):
             return
         if l[1] == POS and r[1] == POS:
@@ -1140,6 +1283,13 @@ class FnEval:
             qside, qframe = b[4]
             p = S(POS, qside, qframe)
             return R(p, p)
+        if self.report and is_s(a) and is_s(b) and a[1] == BYTE and b[1] == BYTE and a[3] and b[3]:
+            ok = not (a[3] == "pos" and b[3] == "len")
+            self.ctx.ob("A6", ok, "%s: byte range `%s`: %s..%s" % (self.fn.path, e.get("src", ""), a[3], b[3]))
+            if not ok:
+                self.ctx.finding("A6", self.fn, "byte-range-pos-len:%s" % _norm_src(e.get("src", "")),
+                                 "byte range `%s` runs from an offset to a LENGTH (the end must be start + length)" % e.get("src", ""),
+                                 e["line"])
         if self.report and is_s(a) and is_s(b) and a[1] == POS and b[1] == POS:
             conflicts = []
             join(a, b, conflicts)
@@ -1331,6 +1481,7 @@ class FnEval:
         is_hook_impl = bool(g.impl and g.impl.get("trait") == HOOK)
         arg_exprs = ([e.get("recv")] if e.get("k") == "mcall" else []) + list(e.get("args", []))
         self.check_lockstep(e, arg_exprs)
+        self.check_mirror(g, e, arg_exprs)
         if self.report and g.spath in BOTH_INDEX_HELPERS and len(allv) >= 2:
             v = allv[1]
             ok = is_s(v) and v[1] in (LEN, ZERO, CONST) and v[2] in ("B", None) and not (v[1] == LEN and v[2] is None and False)
@@ -1558,11 +1709,11 @@ class FnEval:
             if name in ("abs", "clone", "to_owned", "into", "borrow", "unsigned_abs"):
                 return a0
             if name in ("len_utf8", "len_utf16"):
-                return S(BYTE)
+                return S(BYTE, None, "len")
             if name in ("is_whitespace", "is_ascii_whitespace", "is_alphanumeric"):
                 return S(BOOL)
         if name in ("len_utf8",):
-            return S(BYTE)
+            return S(BYTE, None, "len")
         # --- options / results
         if isinstance(a0, tuple) and a0 and a0[0] == "O":
             inner = a0[1] if a0[1] is not None else ANY
@@ -1678,13 +1829,13 @@ class FnEval:
         # --- text (units)
         if path in ("text::abstraction::DiffableStr::len", "core::str::<impl str>::len", "std::str::<impl str>::len",
                     "std::string::String::len") or (name == "len" and _is_text_ty(rty)):
-            return S(BYTE)
+            return S(BYTE, None, "len")
         if name == "len" and ("[u8]" in rty or rty.replace("&", "").strip() in ("str", "T")):
-            return S(BYTE)
+            return S(BYTE, None, "len")
         if name == "char_indices":
             if "bstr" in path or "ByteSlice" in path:
-                return I(T(S(BYTE), S(BYTE), S("Char")))
-            return I(T(S(BYTE), S("Char")))
+                return I(T(S(BYTE, None, "pos"), S(BYTE, None, "pos"), S("Char")))
+            return I(T(S(BYTE, None, "pos"), S("Char")))
         if path == "text::abstraction::DiffableStr::slice" or (name == "slice" and trait == "text::abstraction::DiffableStr"):
             want = R(S(BYTE), S(BYTE))
             if rest:
@@ -2016,6 +2167,8 @@ RULE_TEXT = {
           "position is never advanced by an old-side length)",
     "A8": "ranges of the two sides are stripped in lockstep: whenever an old-side and a new-side range variable are passed "
           "to one call, both have been moved by the same both-sided lengths at the same ends",
+    "A10": "range literals passed for the old and the new side of one call are mirror images of each other (identical up to "
+           "old<->new and side-specific offsets): both sides are stripped and advanced alike",
     "A9": "DiffOp helpers that move both index fields (shift_left, shift_right, grow_left, shrink_right) are called only "
           "with a length common to both sides, never with the length of one side",
 }
@@ -2047,3 +2200,4 @@ rule_A6 = make_rule("A6")
 rule_A7 = make_rule("A7")
 rule_A8 = make_rule("A8")
 rule_A9 = make_rule("A9")
+rule_A10 = make_rule("A10")
